@@ -29,6 +29,9 @@ def _worker(args):
 
 def descriptions(ctx):
     lib = dflow_gen.library(n_small=2, n_big=ctx.pick(3, 4))
+    if ctx.quick:
+        # the heavier shapes (nested scatter, nested scatter with jobs) are explored on the thorough tier only
+        lib = [d for d in lib if d["name"] not in ("nested", "nestedx")]
     descs = []
     for d in lib:
         descs.append(d)
@@ -80,7 +83,7 @@ def model_check(ctx, descs):
     r.coverage = {k: [v, v] for k, v in hits.items()}
     # temporal formulation (ExecutorEnds, EveryStepEnds under weak fairness) on the smaller networks; on all networks
     # the same claim is the invariant QuiescentMeansEnded of the run above
-    small = [d for d in descs if len(d["steps"]) <= 5][:40]
+    small = [d for d in descs if len(d["steps"]) <= 4][:40]
     files = {"MC_DF.tla": dt.constants_module(small), "MC_DF.cfg": dt.cfg(liveness=True, invariants=[])}
     r2 = ctx.tlc("Dataflow", "MC_DF", "MC_DF.cfg", files=files, timeout=2400, workers=4, count=False)
     if not r2.ok:
